@@ -600,6 +600,124 @@ fn c09_growth_under_reader(two_readers: bool) -> impl Fn() + Sync + Send + 'stat
 	}
 }
 
+/// C09 / C15 under the real workers: one index page is full (64 keys, everything enacted and cleaned without
+/// threads); then the crate's own worker loops start and the client commits the 65th key of the page. The log
+/// worker has to log the commit, notice the full page (growth to the next index size), create the reindex
+/// batches and the DropTable record; flush, commit and cleanup workers have to carry all of it through — with
+/// no further client activity except reads and empty transactions that wake the log worker. Every read during the migration returns the key's value; the
+/// migration completes (old index file gone) without shutdown; after shutdown + reopen every key is there.
+fn c09_growth_real_workers(mask: u8, reader: bool) -> impl Fn() + Sync + Send + 'static {
+	move || {
+		ITER.fetch_add(1, Ordering::SeqCst);
+		let dir = fresh_dir();
+		parity_db::verif::set_external_workers(true);
+		let col = ColumnOptions { uniform: true, ..Default::default() };
+		let mut opts = options(&dir, vec![col], true);
+		opts.salt = Some([0; 32]);
+		parity_db::verif::set_touch_enabled(false);
+		let db = Arc::new(Db::open_or_create(&opts).expect("open"));
+		const C: u16 = 0x1;
+		let v = |i: u8| val(8 + (i as usize % 3) * 20, i);
+		db.commit((0..64u8).map(|i| (0u8, page_key(C, i), Some(v(i)))).collect::<Vec<_>>()).unwrap();
+		db.process_commits().unwrap();
+		db.flush_logs().unwrap();
+		db.enact_logs().unwrap();
+		db.clean_logs().unwrap();
+		parity_db::verif::set_touch_enabled(true);
+		let files = |d: &std::path::Path| -> Vec<String> {
+			let mut v: Vec<String> = std::fs::read_dir(d).unwrap().filter_map(|e| e.ok()).map(|e| e.file_name().to_string_lossy().into_owned()).filter(|n| n.starts_with("index")).collect();
+			v.sort();
+			v
+		};
+		let before = files(&dir);
+		assert_eq!(before.len(), 1, "harness: one index file before the growth: {:?}", before);
+		let mut workers = vec![];
+		for (wi, w) in [Worker::Log, Worker::Flush, Worker::Commit, Worker::Cleanup].into_iter().enumerate() {
+			if mask & (1 << wi) == 0 {
+				continue
+			}
+			let db = db.clone();
+			workers.push(loom::thread::spawn(move || db.verif_run_worker(w)));
+		}
+		let rd = if reader {
+			let db = db.clone();
+			Some(loom::thread::spawn(move || {
+				for i in [5u8, 64, 33] {
+					let got = db.get(0, &page_key(C, i)).unwrap();
+					let want = val(8 + (i as usize % 3) * 20, i);
+					// key 64 is committed concurrently: absent or its value
+					if i == 64 {
+						assert!(got.is_none() || got == Some(want), "get of key #64 (being committed) during the growth returned a foreign value");
+					} else {
+						assert_eq!(got, Some(want), "get of live key #{} of the growing page while the workers migrate the index", i);
+					}
+				}
+			}))
+		} else {
+			None
+		};
+		db.commit(vec![(0u8, page_key(C, 64), Some(v(64)))]).unwrap();
+		loom::thread::yield_now();
+		let mut spins = 0;
+		// The log worker looks for reindex work only after it was woken for a commit (or while a migration is under
+		// way): a growth that was triggered by the last commit before a quiet period starts with the next commit. That
+		// is the crate's design, and no property promises otherwise; the client therefore "pokes" the log worker with
+		// an empty transaction whenever nothing has moved for 6 of its yields.
+		let mut last_progress = (0u64, 0u64);
+		let mut idle = 0;
+		let mut pokes = 0;
+		loop {
+			let i = [64u8, 0, 63, 17][spins % 4];
+			assert_eq!(db.get(0, &page_key(C, i)).unwrap(), Some(v(i)), "get of key #{} while the workers carry the growth through", i);
+			let d = db.verif_digest();
+			let f = files(&dir);
+			if d.commit_queue_len == 0 && d.reindex_queue == 0 && d.next_reindex == 0 && f.len() == 1 && f != before && d.last_enacted + 1 == d.next_record_id {
+				break
+			}
+			if (d.next_record_id, d.last_enacted) == last_progress {
+				idle += 1;
+			} else {
+				idle = 0;
+				last_progress = (d.next_record_id, d.last_enacted);
+			}
+			if idle >= 6 {
+				db.commit(Vec::<(u8, Vec<u8>, Option<Vec<u8>>)>::new()).expect("empty commit");
+				pokes += 1;
+				idle = 0;
+			}
+			loom::thread::yield_now();
+			spins += 1;
+			assert!(
+				spins < 600 && pokes < 12,
+				"after {} yields and {} empty commits of a client that otherwise only reads, the index growth has not completed: {} commits queued, reindex queue {}, next_reindex {}, {} of {} records enacted, {} log files waiting to be read, {} waiting for cleanup, index files {:?}",
+				spins, pokes, d.commit_queue_len, d.reindex_queue, d.next_reindex, d.last_enacted, d.next_record_id - 1, d.read_queue, d.cleanup_queue, f
+			);
+		}
+		STAT_DRAINED.fetch_add(1, Ordering::SeqCst);
+		if let Some(r) = rd {
+			r.join().unwrap();
+		}
+		db.verif_shutdown();
+		for w in workers {
+			w.join().unwrap();
+		}
+		for i in 0..65u8 {
+			assert_eq!(db.get(0, &page_key(C, i)).unwrap(), Some(v(i)), "key #{} after the migration", i);
+		}
+		let db = Arc::try_unwrap(db).ok().expect("sole owner");
+		drop(db);
+		parity_db::verif::set_touch_enabled(false);
+		let mut o2 = opts.clone();
+		o2.with_background_thread = false;
+		let db = Db::open(&o2).expect("reopen after the growth");
+		for i in 0..65u8 {
+			assert_eq!(db.get(0, &page_key(C, i)).unwrap(), Some(v(i)), "key #{} after shutdown and reopen", i);
+		}
+		drop(db);
+		parity_db::verif::set_touch_enabled(true);
+	}
+}
+
 /// C15 throttling: one commit puts the queue over its limit, then `n` more clients commit (all throttled) while
 /// the log worker drains; every commit call must return.
 fn c15_throttled_clients(n: usize, mask: u8) -> impl Fn() + Sync + Send + 'static {
@@ -1231,6 +1349,10 @@ fn run_child(prop: &str, tier: &str, idx: usize) -> Outcome {
 		("C16L", i) if !quick && (84..104).contains(&i) => explore(&format!("backlog-4-files/all-workers/fault-from-op-{}", i - 84), 1, wall, c16_faulted_workers(4, 0b1111, (i - 84) as i64)),
 		("C09L", 0) => explore("growth-in-progress/reader+pipeline-thread", 1, wall, c09_growth_under_reader(false)),
 		("C09L", 1) => explore("growth-in-progress/reader+pipeline-thread", 2, wall.min(if quick { 25.0 } else { wall }), c09_growth_under_reader(false)),
+		("C09L", 3) => explore("growth-from-the-start/real-workers+reading-client", 1, wall, c09_growth_real_workers(0b1111, false)),
+		("C09L", 4) if !quick => explore("growth-from-the-start/real-workers+reading-client+reader", 1, wall, c09_growth_real_workers(0b1111, true)),
+		("C09L", 5) if !quick => explore("growth-from-the-start/real-workers+reading-client", 2, wall, c09_growth_real_workers(0b1111, false)),
+		("C15", 26) => explore("liveness/index-growth-completes-under-real-workers", 1, wall, c09_growth_real_workers(0b1111, false)),
 		("C09L", 2) if !quick => explore("growth-in-progress/2-readers+pipeline-thread", 1, wall, c09_growth_under_reader(true)),
 		("C11L", 5) => explore("2-readers+pruner/one-pipeline-thread", 1, wall.min(if quick { 30.0 } else { wall }), c11_two_readers()),
 		("C11L", 6) if !quick => explore("2-readers+pruner/one-pipeline-thread", 2, wall, c11_two_readers()),
